@@ -584,5 +584,5 @@ var _ = core.Publish
 
 func TestC17(t *testing.T) {
 	fuseh.LimitOpenFiles(1024)
-	drv.Main(t, drv.Driver{ID: "C17", Gen: gen17, Run: run17, CaseTimeout: 5 * time.Minute})
+	drv.Main(t, drv.Driver{ID: "C17", Gen: gen17, Run: run17, CaseTimeout: 30 * time.Minute})
 }
